@@ -972,8 +972,13 @@ class TrajectoryStore:
         base_nc_fieldsets = proto._fieldsets - self.associated_fieldsets
 
         # Create the base NetCDF file.
+        # The species dimension must cover every trajectory already held (an
+        # in-memory store being saved may hold several, with differing
+        # species), not just the prototype's.
         assert self.base_file is not None
-        species = proto.species
+        species = sorted(
+            {sp for traj in self._trajectories.values() for sp in traj.species}
+        )
         self._create_nc_file(self.base_file, base_nc_fieldsets, species)
 
         # Create the associated NetCDF files. The `associated_name` and
